@@ -167,6 +167,11 @@ class Ctx:
             thms_by_file[pf] = names
             built = os.path.exists(src[:-2] + ".vo") and \
                 os.path.getmtime(src[:-2] + ".vo") >= os.path.getmtime(src)
+            if built:
+                # a stale .vo survives `make -k` when one of its dependencies failed to build:
+                # ask make whether the target is really up to date
+                qrc, _ = sh(["make", "-f", "Makefile.coq", "-q", pf[:-2] + ".vo"], cwd=d, timeout=300)
+                built = (qrc == 0)
             for n in names:
                 res[n] = built and not bad
         self.obligations += len(res)
